@@ -891,6 +891,79 @@ Proof.
   apply blob_loop_first_error.
 Qed.
 
+(* ---------- accepted strings stay inside the hand-written alphabets ---------- *)
+
+Lemma fn_byte_reflect : forall c, fn_byte_b c = true <-> fn_byte c.
+Proof.
+  intros c. unfold fn_byte_b, fn_byte.
+  rewrite !orb_true_iff, !andb_true_iff, !N.leb_le, !N.eqb_eq. lia.
+Qed.
+
+Lemma safe_component_reflect : forall nm, safe_component_b nm = true <-> SafeComponent nm.
+Proof.
+  intros nm. unfold safe_component_b, SafeComponent.
+  rewrite !andb_true_iff, !negb_eqb_true, forallb_Forall, (Forall_iff _ _ _ fn_byte_reflect). tauto.
+Qed.
+
+Lemma domain_alphabet : forall c, in_alphabet (core gen_re_domain) c = true -> domain_byte_b c = true.
+Proof.
+  intros c H. unfold in_alphabet in H. cbn in H. unfold domain_byte_b.
+  rewrite !orb_true_iff, !andb_true_iff, !N.leb_le in H.
+  rewrite !orb_true_iff, !andb_true_iff, !N.leb_le, !N.eqb_eq. lia.
+Qed.
+
+Lemma repo_alphabet : forall c, in_alphabet (core gen_re_repository) c = true -> repo_byte_b c = true.
+Proof.
+  intros c H. unfold in_alphabet in H. cbn in H. unfold repo_byte_b.
+  rewrite !orb_true_iff, !andb_true_iff, !N.leb_le in H.
+  rewrite !orb_true_iff, !andb_true_iff, !N.leb_le, !N.eqb_eq. lia.
+Qed.
+
+Lemma store_ok_safe : forall st, store_ok_b st = true -> store_safe_b st = true.
+Proof.
+  intros st H. apply store_ok_reflect in H. destruct H as [ty [nm [Ec [_ Hs]]]].
+  unfold store_safe_b. rewrite Ec. apply safe_component_reflect. apply filename_safe_component. exact Hs.
+Qed.
+
+Lemma scope_ok_alpha : forall sc, scope_ok_b sc = true -> scope_alpha_b sc = true.
+Proof.
+  intros sc H. unfold scope_ok_b in H. unfold scope_alpha_b.
+  destruct (String.eqb sc wildcard); [reflexivity|]. cbn [orb] in *.
+  apply andb_true_iff in H. destruct H as [_ H].
+  destruct (cut_byte "/" sc) as [[dm r]|]; [|discriminate].
+  rewrite !andb_true_iff in H. destruct H as [[[H1 H2] H3] H4].
+  rewrite H1, H2. cbn [andb]. apply andb_true_iff. split; apply forallb_Forall.
+  - apply matches_alphabet in H3. eapply Forall_impl; [|exact H3]. apply domain_alphabet.
+  - apply matches_alphabet in H4. eapply Forall_impl; [|exact H4]. apply repo_alphabet.
+Qed.
+
+Lemma forallb_impl : forall {A} (f g : A -> bool) l,
+  (forall x, f x = true -> g x = true) -> forallb f l = true -> forallb g l = true.
+Proof.
+  intros A f g l H. induction l as [|a l IH]; cbn; [reflexivity|].
+  rewrite !andb_true_iff. intros [H1 H2]. split; [apply H; exact H1 | apply IH; exact H2].
+Qed.
+
+Lemma stmt_ok_stores_safe : forall s, stmt_ok_b s = true -> forallb store_safe_b (s_stores s) = true.
+Proof.
+  intros s H. unfold stmt_ok_b in H. rewrite !andb_true_iff in H. destruct H as [_ H].
+  destruct (String.eqb (sv_level (s_sv s)) "skip").
+  - apply andb_true_iff in H. destruct H as [H _]. apply is_empty_true in H. rewrite H. reflexivity.
+  - rewrite !andb_true_iff in H. destruct H as [[[[_ H] _] _] _].
+    eapply forallb_impl; [|exact H]. apply store_ok_safe.
+Qed.
+
+Theorem accepted_strings_safe : forall k d, validate k d = EOk -> strings_safe_b k d = true.
+Proof.
+  intros k d H. pose proof (accepted_stmts_ok _ _ H) as Hs. apply validate_ok_b in H.
+  unfold strings_safe_b. apply forallb_forall. intros s Hin.
+  rewrite forallb_forall in Hs. rewrite (stmt_ok_stores_safe s (Hs s Hin)). cbn [andb].
+  destruct k; [|reflexivity].
+  unfold wellformed_b in H. rewrite !andb_true_iff in H. destruct H as [_ [H _]].
+  rewrite forallb_forall in H. specialize (H s Hin). unfold stmt_scopes_ok_b in H.
+  rewrite !andb_true_iff in H. destruct H as [_ H]. eapply forallb_impl; [|exact H]. apply scope_ok_alpha.
+Qed.
+
 (* ---------- the model meets the oracle ---------- *)
 
 Lemma model_is_spec : forall i, model i = model_spec i.
@@ -945,7 +1018,7 @@ Proof.
       destruct k; cbn [oci_of blob_of] in *; rewrite Hn, eqb_reflx; cbn [negb];
         (destruct (wellformed_b _ d) eqn:Ew; [|reflexivity]; cbn [andb];
          pose proof (proj2 (validate_ok_b _ d) Ew) as Ev; rewrite Ev;
-         rewrite (levels_ok_model _ (accepted_stmts_ok _ _ Ev)); reflexivity).
+         rewrite (levels_ok_model _ (accepted_stmts_ok _ _ Ev)), (accepted_strings_safe _ _ Ev); reflexivity).
     + assert (Hn : is_ok (match k with
                          | OCI => validate OCI d ;; EOk
                          | Blob => EOk ;; validate Blob d end) = wellformed_b k d).
@@ -953,7 +1026,7 @@ Proof.
       destruct k; cbn [oci_of blob_of] in *; rewrite Hn, eqb_reflx; cbn [negb];
         (destruct (wellformed_b _ d) eqn:Ew; [|reflexivity]; cbn [andb];
          pose proof (proj2 (validate_ok_b _ d) Ew) as Ev; rewrite Ev;
-         rewrite (levels_ok_model _ (accepted_stmts_ok _ _ Ev)); reflexivity).
+         rewrite (levels_ok_model _ (accepted_stmts_ok _ _ Ev)), (accepted_strings_safe _ _ Ev); reflexivity).
   - destruct o as [o|].
     + destruct k; cbn; rewrite ?andthen_EOk_r;
         [change (validate_blob o) with (validate Blob o) | change (validate_oci o) with (validate OCI o)];
